@@ -3,6 +3,7 @@ import bisect
 import hashlib
 import itertools
 from . import tablegen as tg, gen
+from . import common
 
 LEVEL_TEXT = ("Lean theorems Crng.Props.C15.lookup_eq_carbon, owner_unique, order_independent, one_destination, add_minimal, remove_minimal, "
               "addr_split for an arbitrary position function over a model of route/consistent_hashing.go (ring sorted by Less, sort.Search "
@@ -200,7 +201,7 @@ def run(ctx):
     ctx.prepare()
     ctx.lean(["Crng.Props.C15"], ["Crng.Props.C15.lookup_eq_carbon", "Crng.Props.C15.owner_unique", "Crng.Props.C15.order_independent",
                                   "Crng.Props.C15.one_destination", "Crng.Props.C15.add_minimal", "Crng.Props.C15.remove_minimal", "Crng.Props.C15.addr_split"],
-             ties=["Crng.Tie.C15"])
+             ties=["Crng.Tie.C15", common.CODE_HASHER])
     rnd = ctx.rng("md5")
     lines = []
     for _ in range(ctx.scale(3000, 50000)):
